@@ -22,7 +22,8 @@ items
                                                _run_stream_exchange_sync / _unpack_and_recover_state /
                                                _dispatch_telemetry and the real call-state cache (hit, other worker,
                                                cache disabled, expired entry): one valid record per request, all
-                                               with the stream id minted at init
+                                               with the stream id minted at init; the cancel's record says what the
+                                               client is answered whether the state's on_cancel hook returns or raises
   * size_capped_record_schema_valid            the real VgiAccessLogFormatter.format under any cap 1..4096: every shedding
                                                stage (incl. the record_too_large sentinel) still yields a schema-valid
                                                record with the call's status, full error_message and stream_id
@@ -349,7 +350,7 @@ from vgi_rpc.rpc import AnnotatedBatch, CallContext, ExchangeState, OutputCollec
 _REPLAY_SCHEMA = _pa.schema([_pa.field("i", _pa.int64())])
 # what the replay service raises: kept out of the stream state (the state is serialised into the HTTP state token, and
 # the exception text under test must not have to survive that trip for the replay to mean anything)
-_REPLAY_EXC: dict = {"etype": "", "msg": ""}
+_REPLAY_EXC: dict = {"etype": "", "msg": "", "hook_fails": False}
 _REAL_INFO: dict = {"posts": None}  # dispatched HTTP requests of the last _real_run (None on the pipe transport)
 
 
@@ -369,6 +370,12 @@ def _raise(etype: object, msg: str) -> None:
     raise cls(msg) if msg != "" else cls()
 
 
+def _replay_cancel_hook() -> None:
+    """The replay service's on_cancel cleanup hook: a no-op unless the replayed history has it fail."""
+    if _REPLAY_EXC.get("hook_fails"):
+        raise RuntimeError("cleanup failed:\nlock 7 was not held")
+
+
 @_dataclass
 class _GenState(ProducerState):
     """Replay service: producer emitting 4 batches, or failing on its third batch (a continuation request under the small HTTP response cap)."""
@@ -384,6 +391,9 @@ class _GenState(ProducerState):
         if self.n >= 4:
             out.finish()
 
+    def on_cancel(self, ctx: CallContext) -> None:
+        _replay_cancel_hook()
+
 
 @_dataclass
 class _XchState(ExchangeState):
@@ -397,6 +407,9 @@ class _XchState(ExchangeState):
             _raise(_REPLAY_EXC["etype"], _REPLAY_EXC["msg"])
         self.n += 1
         out.emit_pydict({"i": [self.n]})
+
+    def on_cancel(self, ctx: CallContext) -> None:
+        _replay_cancel_hook()
 
 
 from vgi_rpc.utils import ArrowSerializableDataclass as _ArrowSerializableDataclass
@@ -464,7 +477,7 @@ class _ReplayImpl:
 
 def _real_run(transport: str, debug: bool, kind: str, fail: bool, msg: str, cancel: bool = False, bad_result: object = False, cache_miss: bool = False,
               etype: object = None, init_fails: bool = False, producer: bool = True, token_ttl: int | None = None,
-              max_record_bytes: int | None = None, header: str = "", max_response_bytes: int | None = None) -> tuple[list, str]:  # fmt: skip
+              max_record_bytes: int | None = None, header: str = "", max_response_bytes: int | None = None, hook_fails: bool = False) -> tuple[list, str]:  # fmt: skip
     """Un-stubbed public API: a real RpcServer served over an in-memory pipe or the real HTTP app (falcon test client),
     real logging with the real VgiAccessLogFormatter.  Returns (parsed vgi_rpc.access records of the call, what the client saw)."""
     import warnings
@@ -476,6 +489,7 @@ def _real_run(transport: str, debug: bool, kind: str, fail: bool, msg: str, canc
     def Impl() -> _ReplayImpl:  # noqa: N802
         return _ReplayImpl(fail, msg, bad_result, etype, init_fails, header)
 
+    _REPLAY_EXC["hook_fails"] = hook_fails
     _REAL_INFO["posts"] = None
     _REAL_INFO["blocked"] = False
     _REAL_INFO["client_error_message"] = None
@@ -1002,7 +1016,7 @@ from vgi_rpc.http.server import _state_token as stok
 from vgi_rpc.metadata import CALL_STATE_KEY, CANCEL_KEY, STATE_KEY
 from vgi_rpc.rpc import _EMPTY_SCHEMA
 
-_HIST: dict = {"now": 1000, "auth": None, "turn_fails": False, "minted": [], "init_kwargs": []}
+_HIST: dict = {"now": 1000, "auth": None, "turn_fails": False, "hook_fails": False, "minted": [], "init_kwargs": []}
 _EXCHANGE_SCHEMA = _pa.schema([_pa.field("v", _pa.int64())])
 
 
@@ -1061,6 +1075,9 @@ class _HistState(_Fake):
         return None
 
     def on_cancel(self, ctx: object) -> None:
+        # the application's cleanup hook: a no-op, or one that fails (its failure is the application's, not the cancel's)
+        if _HIST["hook_fails"]:
+            raise RuntimeError("cleanup failed:\nlock 7 was not held")
         return None
 
 
@@ -1227,16 +1244,24 @@ def _replay_history(args: dict) -> str | None:
     # the token ttl is passed through when the clock advance stays inside it (the replay cannot advance the real clock;
     # an advance past the ttl is replayed as what it means for the history: a call-state cache miss)
     token_ttl = ttl if (ttl == 0 or args.get("dt", 0) < ttl) else None
-    recs, seen = _real_run("http", False, "stream", fail, msg, cancel, cache_miss=miss, init_fails=init_fails, producer=producer, token_ttl=token_ttl)
-    note = " (%s stream; %s)" % ("producer" if producer else "exchange", "init fails" if init_fails else "continuation served from " + ("the echoed call token: call-state cache miss" if miss else "the call-state cache"))
+    hook_fails = cancel and bool(args.get("hook_fails"))
+    recs, seen = _real_run("http", False, "stream", fail, msg, cancel, cache_miss=miss, init_fails=init_fails, producer=producer, token_ttl=token_ttl, hook_fails=hook_fails)
+    note = " (%s stream; %s%s)" % ("producer" if producer else "exchange", "init fails" if init_fails else "continuation served from " + ("the echoed call token: call-state cache miss" if miss else "the call-state cache"),
+                                   "; the state's on_cancel hook raises" if hook_fails else "")
     return _judge_real("http", "stream", fail, msg, cancel, recs, seen, note)
 
 
-@cond(q=60, t=180, stubs=_HIST_STUBS, replay=_replay_history, signature=lambda args, conc: "C34:http-stream-record-stream-id",
+def _sig_history(args: dict, conc: object) -> str:
+    if args.get("kind") == 2 and args.get("hook_fails") and not args.get("init_fails"):
+        return "C34:http-cancel-record-status-not-client-outcome"
+    return "C34:http-stream-record-stream-id"
+
+
+@cond(q=60, t=180, stubs=_HIST_STUBS, replay=_replay_history, signature=_sig_history,
       encoded=[hs._run_stream_init_sync, hs._run_stream_exchange_sync, hs._unpack_and_recover_state, hs._dispatch_telemetry, stok._CallStateCache.get, stok._CallStateCache.put, srv._emit_access_log],
-      bound="history = /init (ok or failing; producer or exchange stream) then one of {turn ok, turn failing, cancel}; continuation on the same worker or another one (shared key), "
+      bound="history = /init (ok or failing; producer or exchange stream) then one of {turn ok, turn failing, cancel with an on_cancel hook that returns or raises}; continuation on the same worker or another one (shared key), "
             "call-state cache enabled or call_state_cache_entries=0, token ttl any int 0..3600, clock advance any int >= 0 (cache entry live or expired)")
-def http_stream_records_share_stream_id(init_fails: bool, producer: bool, kind: int, other_worker: bool, no_cache: bool, ttl: int, dt: int) -> bool:
+def http_stream_records_share_stream_id(init_fails: bool, producer: bool, kind: int, other_worker: bool, no_cache: bool, ttl: int, dt: int, hook_fails: bool) -> bool:
     """
     pre: 0 <= kind <= 2 and 0 <= ttl <= 3600 and dt >= 0
     post: _
@@ -1244,6 +1269,7 @@ def http_stream_records_share_stream_id(init_fails: bool, producer: bool, kind: 
     _HIST["now"] = 1000
     _HIST["auth"] = AuthContext(domain="jwt", authenticated=True, principal="alice")
     _HIST["turn_fails"] = False
+    _HIST["hook_fails"] = False
     del _HIST["minted"][:]
     del _HIST["init_kwargs"][:]
     del _ACCESS.records[:]
@@ -1276,14 +1302,20 @@ def http_stream_records_share_stream_id(init_fails: bool, producer: bool, kind: 
         common._current_request_batch.set(None)
         _HIST["now"] = 1000 + dt
         _HIST["turn_fails"] = kind == 1
+        _HIST["hook_fails"] = hook_fails  # only the cancel request reaches the hook
         worker_b = _HistApp(impl, 0 if no_cache else 8, ttl) if other_worker else worker_a
         md = {STATE_KEY: _OpaqueCursor(b"cursor-state", b"CALL-ID-1"), CALL_STATE_KEY: call_token}
         if kind == 2:
             md[CANCEL_KEY] = b"1"
+        cancel_refused = False
         try:
             _hist_exchange(worker_b, "gen", _HistRequest(md))
+        except HarnessModelError:
+            raise
         except Exception:  # noqa: BLE001
-            return False  # the client echoed a valid call token: hit or miss, the turn must be served
+            if not (kind == 2 and hook_fails):
+                return False  # the client echoed a valid call token: hit or miss, the turn must be served
+            cancel_refused = True  # a hook failure the shell lets through: the client is answered with that error
         second = _collect_new_records()
         if len(second) != 1:
             return False
@@ -1294,7 +1326,9 @@ def http_stream_records_share_stream_id(init_fails: bool, producer: bool, kind: 
             return False  # all records of one stream share one stream_id
         if (rec.get("cancelled") is True) != (kind == 2):
             return False
-        return (rec["status"] == "error") == (kind == 1)
+        # status == what the client is answered: an in-band error for a failing turn, the (empty) end-of-stream reply for
+        # a cancel whether or not the application's cleanup hook raised — unless the shell let that failure through
+        return (rec["status"] == "error") == (kind == 1 or cancel_refused)
     finally:
         common._current_request_batch.reset(rb_tok)
         common._current_stream_id.reset(sid_tok)
